@@ -110,7 +110,12 @@ def run(ctx):
     # TRACE: seeded tracks over seeded multi-segment tempo maps, bounds coinciding with note times and each other
     for k in range(ctx.pick(150, 3000)):
         big = k % 10 == 9          # every tenth chart: a long tempo map and hundreds of notes
-        if big:
+        huge = k % 10 == 4         # every tenth chart: times of centuries (0.001-0.007 BPM): microseconds no longer fit a double
+        if huge:
+            res_ = r.choice([192, 1, 480])
+            tempo = [[0, r.choice([1, 2, 7])]] + ([[r.randrange(1, 10**6), r.choice([1, 3, 1000])]] if r.random() < 0.5 else [])
+            pts = sorted({0, 10**8, 4 * 10**7} | {r.randrange(0, 10**8) for _ in range(6)})
+        elif big:
             res_, tempo, pts = tm.seeded_map(r, min_segments=r.choice([9, 33, 65]), max_segments=200, max_total_s=5000)
         else:
             res_, tempo, pts = tm.seeded_map(r, max_segments=6, max_total_s=5000)
@@ -142,8 +147,8 @@ def run(ctx):
                 s = r.choice(ticks + [max(0, t - 1) for t in ticks] + [t + 1 for t in ticks] + [0])
                 e = r.choice(ticks + [max(0, t - 1) for t in ticks] + [t + 1 for t in ticks] + [hi, s])
             else:
-                s = max(0, r.choice(note_us) + r.choice([-1, 0, 0, 1]))
-                e = max(0, r.choice(note_us) + r.choice([-1, 0, 0, 1, 10**6]))
+                s = max(0, r.choice(note_us) + r.choice([-1, 0, 0, 1, -2, 2]))
+                e = max(0, r.choice(note_us) + r.choice([-1, 0, 0, 1, -2, 2, 10**6]))
             rec = record(f"s{k}-{j}", chart, tgt, kind, form, s, e)
             recs.append(rec)
             info[rec["id"]] = {"case": case, "track": kind, "form": form, "s": s, "e": e, "iso": False}
